@@ -991,7 +991,7 @@ fn cmd_run(args: &Args) -> i32 {
             "distinct_nontrivial": signatures.len(),
             "rule": "One evaluation = one simulated run: a seeded scenario of 3-15 operations (Load/Query/Replace/Deny/Allow/Restart by up to 3 clients) against the real LeapSecondsFile::from_path reading through the simulated disk, with a per-load fault plan (short reads, EINTR, hard read errors incl. persistent and at-EOF, open failure, file replaced mid-load). Run i <= len(shipped list) forces one hard fault at byte offset i of the shipped list. A run is non-trivial when at least one error-returning fault or a mid-load replacement actually fired AND at least one load returned Ok and was compared against the opened file's table; distinct = distinct (initial image class, operation-kind sequence, per load: #EINTR fired (capped 3), #hard faults, line/column-class/kind of first hard fault, open-failure, denial, mid-load replacement, short reads, outcome) tuples among non-trivial runs.",
             "samples": samples,
-            "scope": "C06 sentence 1 / configuration clause only (file-loaded provider == table of the opened file == built-in table). Sentences 2-3 (per-instant UTC<->TAI) are not decided by this check.",
+            "scope": "Decided by simulation: C06 sentence 1 / configuration clause (file-loaded provider == table of the opened file == built-in table, under injected reader/disk faults, replacements and concurrent loads). Sentences 2-3 (per-instant UTC<->TAI) are NOT decided by simulation: they are evaluated only at an enumerated set of probe instants (oracle O6: PRNG-free full sweep once per batch, light seeded form at every query, i.e. after whatever loads/faults/replacements the run performed).",
             "seam_bypassed": bypass,
             "runs_per_hour": if wall > 0.0 { (executed as f64 / wall * 3600.0) as u64 } else { 0 },
             "simulated_time": "not applicable: no timers, sleeps or deadlines in the code under simulation; the step budget is counted in read calls",
